@@ -248,6 +248,8 @@ func (s *Solver) declare(t *Term) {
 		s.axiomed[key] = true
 		sc.axioms = append(sc.axioms, key)
 		s.send(fmt.Sprintf("(assert (= (sOfB (bOfS %s)) %s))", arg, arg))
+		// length of an embedded string is its string length
+		s.send(fmt.Sprintf("(assert (= (blen (bOfS %s)) (str.len %s)))", arg, arg))
 	}
 	s.pendingInj = nil
 }
